@@ -868,4 +868,10 @@ class HistGen:
                     adds += sub
             for n in new:
                 self.C(paddr, n, adds, validated)
+        # an empty non-presence container given explicitly (lyd_new_inner leaves it LYD_NEW | LYD_DEFAULT) next to, or in place of,
+        # the default instance: content-wise nothing
+        for sn in skids:
+            if sn.kind == "container" and not sn.presence and not any(n.sn is sn for n in A + B) and self.rng.random() < 0.08:
+                adds.append("C:%s:%s" % (paddr, tg.tok([DN(sn, None, [])])))
+                self.cur.add("np-container-given-as-new-instance")
         out += dels + adds
